@@ -113,7 +113,7 @@ Proof. exact fixed_witness2. Qed.
     same address), ascending metric sort, and AddRoute / RemoveRoute keyed by
     the canonical network (net.ParseCIDR of the printed form). *)
 Theorem C08_source_facts :
-  (gen_lpm_compare = src_lpm_compare \/ gen_lpm_compare = "ones >= best"%string) /\
+  (gen_lpm_compare = src_lpm_compare \/ gen_lpm_compare = src_lpm_compare_ge) /\
   gen_lpm_initial_best = src_lpm_initial_best /\
   gen_lpm_candidate_is_bucket_head = true /\ gen_cidr_sort_less = src_sort_less /\
   gen_addroute_keys_by_canonical_network = true /\ gen_canonical_is_parsecidr_of_printed = true /\
